@@ -189,6 +189,37 @@ def selective_input():
     return request(c16.graph(), 'transport=grpc+rest,autogen-snippets=false,service-yaml=@svc.yaml@'), {'svc.yaml': c16.yaml_for(keep, False)}
 
 
+SAMPLE_CONFIG_B = '''---
+type: com.google.api.codegen.samplegen.v1p2.SampleConfigProto
+schema_version: 1.2.0
+samples:
+- region_tag: library_get_book_tour
+  description: Fetch a book, the guided tour
+  rpc: GetBook
+  service: acme.lib.v1.Library
+- region_tag: library_delete_book_tour
+  description: Delete a book, the guided tour
+  rpc: DeleteBook
+  service: acme.lib.v1.Library
+'''
+
+
+def paging_both_fields_input():
+    """List methods whose requests carry both page_size and the legacy max_results, only one of them of a usable type."""
+    PP = 'acme.pg.v1'
+    QQ = lambda n: f'.{PP}.{n}'
+    msgs = [message('Item', [field('name', 1, 'string')])]
+    meths = []
+    for i, (ps, mr) in enumerate([('int32', '.google.protobuf.Int64Value'), ('string', 'int32'), ('int32', 'string'), ('int32', 'int32'),
+                                  ('double', '.google.protobuf.UInt32Value')]):
+        msgs.append(message(f'List{i}Request', [field('parent', 1, 'string'), field('page_size', 2, ps), field('page_token', 3, 'string'),
+                                               field('max_results', 4, mr)]))
+        msgs.append(message(f'List{i}Response', [field('items', 1, QQ('Item'), repeated=True), field('next_page_token', 2, 'string')]))
+        meths.append(method(f'List{i}', QQ(f'List{i}Request'), QQ(f'List{i}Response'), http=('get', f'/v1/{{parent=shelves/*}}/items{i}')))
+    f = file('acme/pg/v1/pg.proto', PP, messages=msgs, services=[service('Pg', meths)])
+    return request([f], 'transport=grpc+rest,metadata'), None
+
+
 def inputs(thorough):
     ok_edits = [n for n in edits.EDIT_NAMES if n not in ('subpkg_service', 'recursive_oneof_first', 'subpkg_types')]
     out = {
@@ -202,6 +233,9 @@ def inputs(thorough):
         'baseline+handwritten-samples': (apis.baseline('transport=grpc,samples=@samples.yaml@'), {'samples.yaml': SAMPLE_CONFIG}),
         'baseline+mixins': (apis.baseline('transport=grpc+rest,metadata,service-yaml=@svc.yaml@'),
                             {'svc.yaml': apis.MIXIN_YAML.format(service='acme.lib.v1.Library')}),
+        'baseline+two-sample-configs': (apis.baseline('transport=grpc,autogen-snippets=false,samples=@samples.yaml@,samples=@tour.yaml@'),
+                                        {'samples.yaml': SAMPLE_CONFIG, 'tour.yaml': SAMPLE_CONFIG_B}),
+        'paging-both-fields': paging_both_fields_input(),
         'extended-operations': extended_ops_input(),
         'selective-generation': selective_input(),
     }
